@@ -1,3 +1,5 @@
+import XPathV.Lemmas.Facts
+import XPathV.Generated.ExtraFacts
 import XPathV.Lemmas.C17Base
 import XPathV.Lemmas.ParserTokens
 import XPathV.Lemmas.ScanTail
@@ -145,5 +147,19 @@ characters, is the text's last token (one of `lastToks c`) unless scanning fails
 theorem last_character_is_last_token {pre : List Char} {c : Char} (hpre : '\x00' ∉ pre) (hD : c ∈ delims) :
     ScanFails (pre ++ [c]) ∨ ∃ ts t, t ∈ lastToks c ∧ TextToks (pre ++ [c]) (ts ++ [t, .eof]) :=
   last_char_tokens hpre hD
+
+/-! ## T0: what the regenerated facts say about the current source (leaf theorems: nothing builds on them, so a
+change of the source that invalidates one of them stops only this module) -/
+
+/-- T0: the parser requires the end of the input; unknown functions and axes are errors -/
+theorem structural_rejections : Generated.parseRequiresEOF = true ∧ Generated.funcDefaultErrors = true ∧
+    Generated.axisDefaultErrors = true := by decide
+
+/-- T0 (F3): required arguments: the minimum arity the builder enforces per function -/
+theorem min_arities : (Generated.funcTable.map (fun e => (e.names.headD "", e.minArgs))) =
+    [("lower-case", 1), ("starts-with", 2), ("ends-with", 2), ("contains", 2), ("matches", 2), ("substring", 2),
+     ("substring-before", 2), ("string-length", 1), ("normalize-space", 0), ("replace", 3), ("translate", 3), ("not", 1),
+     ("name", 0), ("true", 0), ("last", 0), ("position", 0), ("boolean", 0), ("count", 1), ("sum", 1), ("ceiling", 1),
+     ("concat", 2), ("reverse", 1), ("string-join", 2)] := by decide
 
 end XPathV.Theorems.C17
